@@ -33,6 +33,7 @@ EXPLANATION = (
     "passes all same-named parameters on to the sibling method / EntRequestParams it delegates to; the create_epr / recv_epr "
     "operand roles agree between builder, instruction class and executor."
     ' A slot of the request array is written under tests on the request type and its own field only; LinkLayerCreate has one default per field (the executor zips arguments, fields and defaults). C11.Z: no truthiness test on an int-typed value.'
+    ' C11.K: a value remembered across calls (keyed table or single slot) is remembered under every argument it depends on.'
 )
 LEVEL_TEXT = (
     "Static analysis, partial: all 40 index constants, all request parameters, all result attributes, all forwarding call sites and "
@@ -581,6 +582,9 @@ def run(ctx):
     # 0 is an ordinary id / value / address: nothing int-valued may be tested by truthiness (nqsa/truth.py)
     from .. import truth
     truth.check(ctx, "C11.Z", ['netqasm.sdk.build_epr', 'netqasm.sdk.epr_socket', 'netqasm.qlink_compat', 'netqasm.backend.executor'])
+    # a value remembered for later calls is keyed by every argument it depends on (nqsa/memo.py)
+    from .. import memo
+    memo.check(ctx, "C11.K", ['netqasm.sdk.build_epr', 'netqasm.sdk.epr_socket', 'netqasm.qlink_compat', 'netqasm.backend.executor'])
 
 
 BEF = "netqasm/sdk/build_epr.py"
